@@ -287,7 +287,7 @@ def build_all(rcs, plans, rep, seed, i0=0):
 def run(tier, seed, build):
     warnings.filterwarnings("ignore")
     _TIER[0] = tier
-    rep = Report(PROP, tier, seed)
+    rep = Report(PROP, tier, seed, level="other")
     timer = {}
     t0 = time.time()
     sl.package()
